@@ -47,7 +47,7 @@ func nested(op string, groups []int, leaf func(i int) *GT) *GT {
 func init() {
 	register(&PropDef{
 		ID:   "C09",
-		Rule: "boundary programs built by construction: operand counts 126/127/128 direct and reached only by flattening nested and/or (64+64, 100+100, 127+1, 3x127 ...), node counts 32766/32767/32768 (and 16383/16384 real nodes with event nodes, with and without fast operators), operand-stack depths 6..18 with every node kind at the deepest slot, x optimisation subsets x {plain, ReportEvent, Debug}; Go's accept/reject decision (and which limit), layout, Eval/TryEval results are compared with the model; non-trivial = every case; distinct = distinct (source shape, config)",
+		Rule: "boundary programs built by construction: operand counts 126/127/128 direct and reached only by flattening nested and/or (64+64, 100+100, 127+1, 3x127 ...), node counts 32766/32767/32768 (and 16383/16384 real nodes with event nodes, with and without fast operators), operand-stack depths 6..18 with every node kind at the deepest slot, x optimisation subsets x {plain, ReportEvent, Debug}; Go's accept/reject decision (and which limit), layout, Eval/TryEval results are compared with the model; ONE context evaluating programs of stack depths 2..20 one after the other; non-trivial = every case; distinct = distinct (source shape, config)",
 		Assumptions: []string{"huge programs are compared on the capacity decision and the evaluation result only (their layout is not exported)"},
 		Behav:       []int{2, 5, 7}, Fidelity: []int{3, 4, 6, 8, 1, 10, 15}, CodeText: evalCodeText,
 		Gen: genC09,
